@@ -73,6 +73,7 @@ CORNERS = [
 
 # negated classes whose ranges touch the first / last letter of the generator's alphabet (' ' and '~') or lie
 # entirely outside it; generated 600 times over so that every letter of the complement is drawn
+MIXED_CLASSES = ["[\\da-fA-F]", "[a-f\\dA-F]", "[a-fA-F\\d]", "[\\wa-c.-]", "[\\d!-#x-z]", "[0-4\\d6-9A-C]", "[\\w\u0430-\u0433\u0451x-z]"]
 EDGE_CLASSES = ["[^\\x00-z]", "[^\\x00-Z_-z]", "[^\\x01-y]", "[^\\x00-}]", "[^\\x00- ]", "[^\t- ]", "[^ - ]", "[^~-\\x7f]", "[^~-~]", "[^}-\\x80]", "[^\\x00-!]", "[^ -!]", "[^\\x7f-\\xff]",
                 "[^\\x00-\\x1f]", "[^ ~]", "[^!-}]", "[^\\d -/]", "[^\\w~]", "[^a-zA-Z ]"]
 
@@ -82,9 +83,14 @@ def exhaustive(tier):
         for script in ([], [0.0] * 64, [1.0] * 64, [0.5, 0.0, 1.0] * 20):
             yield {"text": p, "max_repeat": 32, "seed": None, "rng": script, "corner": True}
         yield {"text": p, "max_repeat": 32, "seed": 7, "rng": [], "corner": True}
-    for c in EDGE_CLASSES:
+    for c in EDGE_CLASSES + MIXED_CLASSES:
         for seed in (1, 2):
             yield {"text": c + "{600}", "max_repeat": 32, "seed": seed, "rng": [], "corner": True}
+    # generators of one's own with letters outside printable ASCII, negated ranges over them
+    for p in ("[^\u0430-\u044f]{40}", "[^\\x00-\\x1f]{40}", "[^\u0431-\u0434\\d]{40}", "[^a-z\u0430]{40}", "x[^\\t]y", "[^\u0430\u0431\u0432]{40}"):
+        for seed in (1, 2):
+            yield {"text": p, "max_repeat": 32, "seed": seed, "rng": [], "corner": True,
+                   "alphabet": {"letters": "\u0430\u0431\u0432\u0433\u0434\u04351C2\t xyz", "digits": "12", "word": "\u0430\u0431\u0432\u0433\u0434\u04351C2xyz"}}
     # every explicit repeat count 0..130 (the generator's own limit, its multiples and sre's internal opcode numbers
     # lie in that range), as {k}, {0,k} and {k,}, greedy and lazy, through RegexGenerator and through fake()
     for k in range(0, 131):
@@ -127,7 +133,7 @@ def _check_text(case, ctx):
     cm = rng.seeded(case["seed"]) if case.get("seed") is not None else rng.scripted(case.get("rng", []))
     with cm:
         try:
-            s = RegexGenerator(Random(), max_repeat=case["max_repeat"]).generate(p)
+            s = RegexGenerator(Random(), max_repeat=case["max_repeat"], **({"alphabet": case["alphabet"]} if case.get("alphabet") else {})).generate(p)
         except Exception as e:  # noqa
             if kind == "unsupported":
                 return
@@ -138,7 +144,7 @@ def _check_text(case, ctx):
     if re.fullmatch(p, s) is None:
         raise Violation("nonmatch" if kind == "supported" else "unsupported-nonmatch",
                         f"generate({p!r}, max_repeat={case['max_repeat']}) = {s!r} does not fully match")
-    if case.get("corner"):
+    if case.get("corner") and not case.get("alphabet"):
         # the same pattern through the public entry point (the library's own, module-level generator)
         from d42 import fake, schema
         cm = rng.seeded(case["seed"]) if case.get("seed") is not None else rng.scripted(case.get("rng", []))
